@@ -96,12 +96,26 @@ func cmdCheck(argv []string) {
 	workers := fs.Int("workers", 0, "parallel workers (default: cores)")
 	noReplay := fs.Bool("no-replay", false, "skip native replay (development)")
 	only := fs.String("only", "", "run only harnesses containing this substring (development; evidence not written)")
-	fs.Parse(argv)
-	if fs.NArg() != 1 {
+	// the property id may come before or after the flags
+	var ids, flags []string
+	for k := 0; k < len(argv); k++ {
+		a := argv[k]
+		if strings.HasPrefix(a, "-") {
+			flags = append(flags, a)
+			if !strings.Contains(a, "=") && k+1 < len(argv) && !strings.HasPrefix(argv[k+1], "-") && a != "--no-replay" && a != "-no-replay" {
+				flags = append(flags, argv[k+1])
+				k++
+			}
+		} else {
+			ids = append(ids, a)
+		}
+	}
+	fs.Parse(flags)
+	if len(ids) != 1 {
 		fmt.Fprintln(os.Stderr, "usage: gosymx check <ID> [--tier quick|thorough]")
 		os.Exit(2)
 	}
-	id := fs.Arg(0)
+	id := ids[0]
 	spec := checks[id]
 	if spec == nil {
 		fmt.Fprintln(os.Stderr, "unknown property", id)
